@@ -93,6 +93,9 @@ def _case(draw, kind):
                 linear=linear,
                 layout=draw(st.sampled_from(["C", "C", "F"])),
                 persistent_out=draw(st.sampled_from([False, False, False, True])),
+                # y' = y written as `return y`: the function hands back the very array it was given (or, every other call, a view of
+                # it) - whatever buffer the integrator assembled the stage argument in
+                returns_argument=draw(st.sampled_from([False] * 7 + [True])),
                 mid_fault=draw(st.sampled_from([None, None, None, 1, 2, 4, 7, 12])),
                 # between two judged calls the public step() method is called directly (a trial step with another size from the
                 # reached point, or a step somewhere else): it leaves its own slopes in the integrator's buffers
@@ -137,6 +140,10 @@ def check(case):
         nn = int(np.prod(rp["shape"]))
         zero = [[0.0] * nn for _ in range(nn)]
         rp = dict(rp, P=zero, Q=zero, a=0.0, c=1.0, w2=0.0, u=[(0.5 + 0.25 * i) * (-1) ** i for i in range(nn)])      # y' = u
+    if case.get("returns_argument") and not case.get("persistent_out"):
+        nn = int(np.prod(rp["shape"]))
+        zero = [[0.0] * nn for _ in range(nn)]
+        rp = dict(rp, P=[[1.0 if i == j else 0.0 for j in range(nn)] for i in range(nn)], Q=zero, a=0.0, c=0.0)      # y' = y
     f0 = PR.Prog(rp)
     kbox = [1.0]
     evals = [0]
@@ -159,6 +166,8 @@ def check(case):
             if fault_at[0] is not None and evals[0] == fault_at[0]:
                 fault_at[0] = None
                 raise (fault_exc[0] or Boom)("injected at evaluation {}".format(evals[0]))
+            if case.get("returns_argument") and not case.get("persistent_out") and kw.get("k", kbox[0]) == 1.0 and isinstance(y, np.ndarray):
+                return y if evals[0] % 2 else y[...]
             out = f0(t, y) * np.asarray(y).dtype.type(kw.get("k", kbox[0]))
             if not case.get("persistent_out"):
                 return out
@@ -188,7 +197,7 @@ def check(case):
     shape = f.shape
     n = f.n
     cls = M.get(name)
-    labels = ["method:" + name, "dtype:" + dtname, "h<0" if case["h"] < 0 else "h>0", "family:" + M.family(cls)]
+    labels = ["method:" + name, "dtype:" + dtname, "h<0" if case["h"] < 0 else "h>0", "family:" + M.family(cls)] + (["rhs_returns_its_argument"] if case.get("returns_argument") and not case.get("persistent_out") else [])
     viols = []
     metrics = {}
     sig = "{}:{}".format(M.family(cls), dtname)
